@@ -94,6 +94,61 @@ def entity_list(p):
     return ents
 
 
+def stored_attribute_names(p, ci):
+    out = set()
+    for c in p.mro(ci):
+        if isinstance(c, str):
+            continue   # external base (sklearn BaseEstimator): stores no fitted attribute of its own
+        for m in c.methods.values():
+            for n in ast.walk(m.node):
+                if isinstance(n, ast.Attribute) and isinstance(n.ctx, (ast.Store, ast.Del)) and isinstance(n.value, ast.Name):
+                    out.add(n.attr)
+                elif isinstance(n, ast.Call) and isinstance(n.func, ast.Name) and n.func.id == "setattr" and len(n.args) >= 2:
+                    out.add(n.args[1].value if isinstance(n.args[1], ast.Constant) else "*")
+        for st in c.node.body:
+            if isinstance(st, ast.Assign):
+                for t in st.targets:
+                    if isinstance(t, ast.Name):
+                        out.add(t.id)
+            elif isinstance(st, (ast.FunctionDef, ast.AsyncFunctionDef)):
+                out.add(st.name)
+    return out
+
+
+def check_no_carried_attributes(p, report, rule):
+    from ..attrflow import AttrMust
+    from ..paths import Facts
+    from . import c05 as _c05
+    for ci, fq in _c05.pool_entities(p):
+        stored = stored_attribute_names(p, ci)
+        b = {}
+        if "*" not in stored:
+            for c in p.mro(ci):
+                if isinstance(c, str):
+                    continue
+                for m in c.methods.values():
+                    for n in ast.walk(m.node):
+                        if isinstance(n, ast.Call) and isinstance(n.func, ast.Name) and n.func.id == "hasattr" \
+                                and len(n.args) == 2 and isinstance(n.args[0], ast.Name) and n.args[0].id == "self" \
+                                and isinstance(n.args[1], ast.Constant) and isinstance(n.args[1].value, str) \
+                                and n.args[1].value not in stored:
+                            b[ast.unparse(n)] = False
+        am = AttrMust(p, ci, fq, init_facts=Facts(b=b)).run()
+        must, exposed = am.summary()
+        ent = f"{ci.name}.{fq.name}"
+        ini = p.find_method(ci, "__init__")
+        params = set(ini.all_param_names()) if ini is not None else set()
+        exposed = {a: v for a, v in exposed.items() if a not in params}
+        if not exposed:
+            report.add(rule, ent, "every fitted attribute read is computed in the same call", f"{fq.file}:{fq.node.lineno}", True,
+                       detail=f"{len(must)} attribute(s) definitely assigned before they are read")
+        for a, v in sorted(exposed.items()):
+            ln, fl, qual, facts = v[0], v[1], v[2], v[3]
+            report.add(rule, ent, f"self.{a} read in {qual} before it is computed in this call", f"{fl}:{ln}", False,
+                       detail=f"on the path where {facts or 'always'} the value comes from an EARLIER query: a used object and a "
+                              f"freshly constructed twin disagree on the same call")
+
+
 def run(p, report, tier):
     report.rule("R6.1", "no call of a process-global draw (numpy.random.<draw>, random.<draw>, numpy.random.seed, "
                 "seedless RandomState()/default_rng()) anywhere in the package", floor=1)
@@ -253,6 +308,13 @@ def run(p, report, tier):
         for n in bad:
             report.add("R6.7", m.name, f"`{norm_stmt(n, 60)}`", f"{m.relpath}:{n.lineno}", False,
                        detail="the seed 0 is falsy: it is treated as 'not given' and the result is no longer reproducible for it")
+    # ---- R6.9 no result-relevant attribute survives from an earlier pool query
+    report.rule("R6.9", "a pool query reads no fitted attribute (self.<a>_ / self._<a>) that it has not (re)computed in this "
+                "very call: interprocedural definite assignment over query and the methods it calls, with hasattr(self, "
+                "'<name>') known false for names no method ever stores; an attribute that is only written under a "
+                "`not hasattr` guard is a cache from an earlier call, and the result then depends on the history of calls",
+                floor=30)
+    check_no_carried_attributes(p, report, "R6.9")
     # ---- R6.6 every fit starts from the seed again
     report.rule("R6.6", "every fit re-derives random_state_ from the constructor parameter before reading it (a test "
                 "hasattr(self, 'random_state_') being true does not count): a refitted model does not continue from the "
